@@ -353,7 +353,10 @@ pub fn comment_s() -> BoxedStrategy<String> {
         32 => Just(String::new()),
         8 => "[A-Za-z0-9 _.;:()áñ-]{1,12}".prop_map(|s| s.trim().to_string()),
         // words the program gives (or once gave) a meaning to: they are part of what a line declares
-        1 => select(vec!["CTEEPBD_EXCLUYE_SCOP_ACS", "BdC aire-agua CTEEPBD_EXCLUYE_SCOP_ACS", "CTEEPBD_AUX", "bomba CTEEPBD_EXCLUYE_AUX_ACS x", "CTEEPBD_"]).prop_map(|s| s.to_string()),
+        // (markers, and the two comments the program writes on the components it adds itself - a saved
+        // output reused as input carries them on declared lines)
+        2 => select(vec!["CTEEPBD_EXCLUYE_SCOP_ACS", "BdC aire-agua CTEEPBD_EXCLUYE_SCOP_ACS", "CTEEPBD_AUX", "bomba CTEEPBD_EXCLUYE_AUX_ACS x", "CTEEPBD_",
+                         "Equilibrado de consumo sin producción declarada", "Reasignación automática de consumos auxiliares"]).prop_map(|s| s.to_string()),
     ]
     .boxed()
 }
